@@ -3,10 +3,12 @@ mod checks;
 mod driver;
 mod framing;
 mod gen;
+mod lin;
 mod minimise;
 mod model;
 mod ringh;
 mod ringn;
+mod ringt;
 mod rng;
 mod scenario;
 mod segment;
